@@ -109,7 +109,16 @@ def _probe_backend(paths, prefix, realpath_too=True):
 
 
 def _kernel_side(layout, paths, cwd):
-    top = tempfile.mkdtemp(prefix='verif-simfs-', dir='/var/tmp')
+    top = None
+    for base in ('/var/tmp', '/tmp', os.path.join(core.VERIF_DIR, '.scratch')):
+        try:
+            os.makedirs(base, exist_ok=True)
+            top = tempfile.mkdtemp(prefix='verif-simfs-', dir=base)
+            break
+        except OSError:
+            continue
+    if top is None:
+        raise core.HarnessError("no writable scratch directory for the kernel side of the differential test")
     try:
         os.chmod(top, 0o755)
         top = os.path.realpath(top)
@@ -118,9 +127,12 @@ def _kernel_side(layout, paths, cwd):
 
         def child():
             if os.getuid() == 0:
-                os.setgroups([])
-                os.setgid(65534)
-                os.setuid(65534)
+                try:
+                    os.setgroups([])
+                    os.setgid(65534)
+                    os.setuid(65534)
+                except OSError:
+                    pass        # cannot drop privileges: permission bits will not be enforced
             os.chdir(top + cwd)
             return [_probe_backend(paths, top), os.getuid() != 0]
         status, val = core.fork_call(child)
@@ -144,6 +156,7 @@ def simfs_differential(n_layouts, seed=0, verbose=False):
     t0 = time.time()
     probes_total, mismatches, examples = 0, 0, []
     unprivileged = True
+    skipped_layouts = 0
     for i in range(n_layouts):
         rng = random.Random("simfs:%d:%d" % (seed, i))
         layout = c15.gen_layout(rng, 'persistent')
@@ -174,6 +187,11 @@ def simfs_differential(n_layouts, seed=0, verbose=False):
             keep.append(p)
         kernel, unpriv = _kernel_side(layout, keep, layout['cwd'])
         unprivileged = unprivileged and unpriv
+        if not unpriv and set(layout['features']) & set(['unreadable_file', 'unsearchable_dir']):
+            # running as root without the ability to drop privileges: the kernel ignores the
+            # permission bits, so layouts that rely on them cannot be compared
+            skipped_layouts += 1
+            continue
         mount = simfs.Mount(fs, simfs.default_real_prefixes([core.repo_path(), core.VERIF_DIR]))
         with mount:
             sim = _probe_backend(keep, '')
@@ -189,6 +207,7 @@ def simfs_differential(n_layouts, seed=0, verbose=False):
                     examples.append({'layout': i, 'path': p, 'kernel': k, 'simfs': s})
     info = {'layouts': n_layouts, 'probe_paths': probes_total, 'mismatches': mismatches,
             'examples': examples, 'kernel_side_unprivileged': unprivileged,
+            'layouts_skipped_permission_bits_not_enforced': skipped_layouts,
             'calls_compared': ['lstat', 'stat', 'readlink', 'open+read', 'os.path.realpath'],
             'wall_s': round(time.time() - t0, 2)}
     return info
